@@ -119,8 +119,11 @@ def winsOf (prompt ovr line out : Bytes) (status : Nat) : List Win :=
   [ ⟨line.length + 2, Tty.cook out ++ prompt, ovr⟩,
     ⟨echoStatus.length + 2, statusBytes status ++ CRLF ++ prompt, prompt⟩ ]
 
-/-- a window can be read at all (else tbot waits for ever) and only in one way -/
-def Win.good (w : Win) : Bool := w.prompt.isSuffixOf w.body && onlyEnd w.prompt w.body
+/-- a window can be read at all: it ends with its prompt (else tbot waits for ever) -/
+def Win.readable (w : Win) : Bool := w.prompt.isSuffixOf w.body
+
+/-- … and in one way only, however the transport cuts it -/
+def Win.good (w : Win) : Bool := w.readable && onlyEnd w.prompt w.body
 
 /-- did the transport hand out a boundary at which a window ended with its prompt, early?
     (`bs`: the stream offsets of all piece boundaries of the call) -/
@@ -173,7 +176,7 @@ def specOp (c : UCase) (env : List (Bytes × Bytes)) (op : UOp) (o : UObs) : Ver
     else if args.isEmpty || !args.all printableB then .stop
     else
       let wins := cmdWins c.prompt args out status
-      if !wins.all Win.good || earlyHit 0 wins (sums 0 o.pieces) then .stop
+      if !wins.all Win.readable || earlyHit 0 wins (sums 0 o.pieces) then .stop
       else
         let want := text (Tty.cook out)
         let v := match k with
@@ -186,7 +189,7 @@ def specOp (c : UCase) (env : List (Bytes × Bytes)) (op : UOp) (o : UObs) : Ver
     else if !(printableB var && nameOk var && printableB x) then .stop
     else
       let wins := envSetWins c.prompt var x
-      if !wins.all Win.good || earlyHit 0 wins (sums 0 o.pieces) then .stop
+      if !wins.all Win.readable || earlyHit 0 wins (sums 0 o.pieces) then .stop
       else if o.val == .out (decodeReplace x)
           && o.ran == [.argv (setenvArgs var x), .status, .argv (printenvArgs var), .status] then
         .ok (envSet env var x)
@@ -197,7 +200,7 @@ def specOp (c : UCase) (env : List (Bytes × Bytes)) (op : UOp) (o : UObs) : Ver
     else
       let cur := envGet env var
       let wins := envGetWins c.prompt var cur
-      if !wins.all Win.good || earlyHit 0 wins (sums 0 o.pieces) then .stop
+      if !wins.all Win.readable || earlyHit 0 wins (sums 0 o.pieces) then .stop
       else
         let v := match cur with
           | some x => o.val == .out (decodeReplace x)
@@ -212,6 +215,15 @@ def specOps (c : UCase) : List (Bytes × Bytes) → List UOp → List UObs → B
     | .stop => os.length == ops.length
     | .ok env' => specOps c env' ops os
   | _, _, _ => false
+
+/-- per-call verdicts (`ok` / `stop` / `bad`), for the input-distribution evidence -/
+def verdicts (c : UCase) : List (Bytes × Bytes) → List UOp → List UObs → List String
+  | env, op :: ops, o :: os =>
+    match specOp c env op o with
+    | .bad => ["bad"]
+    | .stop => ["stop"]
+    | .ok env' => "ok" :: verdicts c env' ops os
+  | _, _, _ => []
 
 /-- the inputs the theorem ranges over: every argument printable (ASCII 0x20–0x7E and all of
     UTF-8 beyond), legal variable names, single-line values, and every window readable in
